@@ -1,8 +1,100 @@
+import QcoVerif.Model.Noise
 /-
-  Stateless driver module `noise`: `handle args` answers one line. Filled in by the Noise model.
+  Stateless driver module `noise` (C14).
+
+    noise table mz cz h x
+        → "MZ=<mz>,M=<mz>,…"                       the duration table of the model
+    noise dress <default> <individual> <indexmap> <durations> <instr>*
+        default     t1,t2,assign                    each an exact rational n/d
+        individual  - | name:t1,t2,assign;name:…
+        indexmap    - | idx:name;idx:name
+        durations   mz,cz,h,x                       integers (harness: ns)
+        instr       NAME|targets|args               targets: - | t,t,…  with t = 5 (qubit) r-1 (rec[-1]) o3 (other)
+                                                    args:    - | n/d,n/d,…
+        → "ok <instr>* # <block durations> @ <qubit targets>"   the dressed circuit after splitting fused targets;
+          args printed as l<n/d> (literal), a<n/d> (assignment error), px:<d>:<t1>:<t2> / py… / pz… (idle channel)
+        → "error" where the code raises while parsing targets
 -/
 namespace Qco.Driver.Noise
+open Qco.Noise
 
-def handle (_args : List String) : String := "bad-op"
+def parseQ? (s : String) : Option Q :=
+  match s.splitOn "/" with
+  | [n, d] => do some ⟨← n.toInt?, ← d.toNat?⟩
+  | [n] => do some ⟨← n.toInt?, 1⟩
+  | _ => none
+
+def showQ (v : Q) : String := s!"{v.num}/{v.den}"
+
+def parseList {α} (sep : String) (p : String → Option α) (s : String) : Option (List α) :=
+  if s == "-" then some [] else (s.splitOn sep).mapM p
+
+def parseQNoise? (s : String) : Option QNoise :=
+  match s.splitOn "," with
+  | [a, b, c] => do some ⟨← parseQ? a, ← parseQ? b, ← parseQ? c⟩
+  | _ => none
+
+def parseTarget? (s : String) : Option Target :=
+  if s.startsWith "r" then (s.drop 1).toString.toInt?.map .mrec
+  else if s.startsWith "o" then (s.drop 1).toString.toNat?.map .other
+  else s.toNat?.map .q
+
+def parseInstr? (s : String) : Option Instr :=
+  match s.splitOn "|" with
+  | [n, t, a] => do
+    let ts ← parseList "," parseTarget? t
+    let as ← parseList "," (fun x => (parseQ? x).map Arg.lit) a
+    some ⟨n, ts, as⟩
+  | _ => none
+
+def parseSettings? (d i x t : String) : Option Settings := do
+  let d ← parseQNoise? d
+  let i ← parseList ";" (fun e => match e.splitOn ":" with
+    | [n, v] => (parseQNoise? v).map (fun q => (n, q))
+    | _ => none) i
+  let x ← parseList ";" (fun e => match e.splitOn ":" with
+    | [k, n] => k.toNat?.map (fun k => (k, n))
+    | _ => none) x
+  match (← parseList "," String.toInt? t) with
+  | [mz, cz, h, xx] => some { default := d, individual := i, indexMap := x, durations := ⟨mz, cz, h, xx⟩ }
+  | _ => none
+
+def showTarget : Target → String
+  | .q n => toString n
+  | .mrec k => s!"r{k}"
+  | .other k => s!"o{k}"
+
+def showAxis : Axis → String
+  | .x => "px" | .y => "py" | .z => "pz"
+
+def showArg : Arg → String
+  | .lit v => s!"l{showQ v}"
+  | .assign v => s!"a{showQ v}"
+  | .pauli a d t1 t2 => s!"{showAxis a}:{d}:{showQ t1}:{showQ t2}"
+
+def showL {α} (f : α → String) (l : List α) : String :=
+  if l.isEmpty then "-" else ",".intercalate (l.map f)
+
+def showInstr (i : Instr) : String := s!"{i.name}|{showL showTarget i.targets}|{showL showArg i.args}"
+
+def handle (args : List String) : String :=
+  match args with
+  | ["table", mz, cz, h, x] =>
+    match mz.toInt?, cz.toInt?, h.toInt?, x.toInt? with
+    | some mz, some cz, some h, some x =>
+      ",".intercalate ((DurParams.table ⟨mz, cz, h, x⟩).map (fun (k, v) => s!"{k}={v}"))
+    | _, _, _, _ => "bad-op"
+  | "dress" :: d :: i :: x :: t :: instrs =>
+    match parseSettings? d i x t, instrs.mapM parseInstr? with
+    | some s, some c =>
+      match dress s c with
+      | none => "error"
+      | some out =>
+        let m := measDress s c
+        let ds := (splitBlocks m).map (blockDuration s)
+        let body := " ".intercalate ((flatten out).map showInstr)
+        s!"ok {body} # {showL toString ds} @ {showL toString (allTargets m)}"
+    | _, _ => "bad-op"
+  | _ => "bad-op"
 
 end Qco.Driver.Noise
